@@ -732,3 +732,38 @@ func vmCallOK(vm *VM, cfunc *CompiledFunction, numArgs int) bool {
 		0 <= vm.frameIndex && vm.frameIndex < frameSize &&
 		0 <= vm.curFrame.basePointer && vm.curFrame.basePointer < stackSize && vm.curFrame.basePointer+cfunc.NumLocals < stackSize
 }
+
+// specWidthsOK: an operand width list as found in the opcode tables.
+func specWidthsOK(w []int) bool {
+	return len(w) <= 2 && verifrt.Forall(func(k int) bool {
+		return !(0 <= k && k < len(w)) || w[k] == 1 || w[k] == 2 || w[k] == 4
+	})
+}
+
+// specOffsetOf: byte offset of operand i (sum of the widths before it).
+func specOffsetOf(w []int, i int) int {
+	s := 0
+	if i >= 1 && len(w) >= 1 {
+		s += w[0]
+	}
+	if i >= 2 && len(w) >= 2 {
+		s += w[1]
+	}
+	return s
+}
+
+func specWidthsSum(w []int) int { return specOffsetOf(w, len(w)) }
+
+// specReadAt: operand i decoded big-endian from ins (which starts at the first operand byte).
+func specReadAt(ins []byte, w []int, i int) int {
+	off := specOffsetOf(w, i)
+	switch w[i] {
+	case 1:
+		return int(ins[off])
+	case 2:
+		return int(ins[off+1]) | int(ins[off])<<8
+	case 4:
+		return int(ins[off+3]) | int(ins[off+2])<<8 | int(ins[off+1])<<16 | int(ins[off])<<24
+	}
+	return 0
+}
